@@ -1,0 +1,155 @@
+//! Hooks for the external verification harness (cargo feature `verif-hooks`).
+//!
+//! Nothing in this module contains protocol logic of its own: every function only wires the
+//! production tasks (`SessionTask`, `ClientLoop`, `TcpChannelTask`) to a transport and to
+//! connection outcomes that are supplied by the caller instead of the operating system.
+
+use std::future::Future;
+use std::num::NonZeroUsize;
+use std::pin::Pin;
+use std::sync::Arc;
+
+use crate::client::{Channel, ClientState, ClientTask, Listener};
+use crate::common::frame::{FrameWriter, FramedReader};
+use crate::common::phys::PhysLayer;
+use crate::server::task::{AuthorizationType, SessionTask};
+use crate::server::{AuthorizationHandler, RequestHandler, ServerHandle, ServerHandlerMap};
+use crate::{ClientOptions, DecodeLevel, RequestError, RetryStrategy};
+
+/// In-memory transport supplied by the harness
+pub trait Io: tokio::io::AsyncRead + tokio::io::AsyncWrite + Unpin + Send {}
+
+impl<T> Io for T where T: tokio::io::AsyncRead + tokio::io::AsyncWrite + Unpin + Send {}
+
+/// Which framing a session uses
+#[derive(Copy, Clone, Debug, PartialEq, Eq)]
+pub enum Framing {
+    /// MBAP (TCP / TLS)
+    Tcp,
+    /// RTU (serial)
+    #[cfg(feature = "serial")]
+    Rtu,
+}
+
+/// A production server session that can be run over a caller-supplied transport
+pub struct ServerSession<T: RequestHandler> {
+    task: SessionTask<T>,
+}
+
+impl<T: RequestHandler> ServerSession<T> {
+    /// Run the session over the transport until it ends, returning the reason.
+    ///
+    /// May be called again with a new transport: this is what the RTU server task does
+    /// when it re-opens its port.
+    pub async fn run(&mut self, io: Box<dyn Io>) -> RequestError {
+        let mut phys = PhysLayer::new_verif(io);
+        self.task.run(&mut phys).await
+    }
+}
+
+/// Create a production server session (the same object the TCP/TLS/RTU server tasks create)
+pub fn server_session<T: RequestHandler>(
+    framing: Framing,
+    handlers: ServerHandlerMap<T>,
+    auth: Option<(Arc<dyn AuthorizationHandler>, String)>,
+    decode: DecodeLevel,
+) -> (ServerHandle, ServerSession<T>) {
+    let (tx, rx) = tokio::sync::mpsc::channel(crate::server::SERVER_COMMAND_CHANNEL_CAPACITY);
+    let auth = match auth {
+        None => AuthorizationType::None,
+        Some((handler, role)) => AuthorizationType::Handler(handler, role),
+    };
+    let (writer, reader) = match framing {
+        Framing::Tcp => (FrameWriter::tcp(), FramedReader::tcp()),
+        #[cfg(feature = "serial")]
+        Framing::Rtu => (FrameWriter::rtu(), FramedReader::rtu_request()),
+    };
+    let task = SessionTask::new(handlers, auth, writer, reader, rx, decode);
+    (ServerHandle::new(tx), ServerSession { task })
+}
+
+/// Why a client session ended (mirror of the crate-private `SessionError`)
+#[derive(Copy, Clone, Debug, PartialEq, Eq)]
+pub enum SessionEnd {
+    /// I/O error
+    Io(std::io::ErrorKind),
+    /// framing error
+    BadFrame,
+    /// channel was disabled
+    Disabled,
+    /// maximum number of consecutive response timeouts reached
+    MaxTimeouts(usize),
+    /// shutdown
+    Shutdown,
+}
+
+/// The production client request loop, runnable over a caller-supplied transport
+pub struct ClientSession {
+    inner: crate::client::task::ClientLoop,
+}
+
+impl ClientSession {
+    /// Run one session (connection) over the transport until it ends
+    pub async fn run(&mut self, io: Box<dyn Io>) -> SessionEnd {
+        use crate::client::task::SessionError;
+        let mut phys = PhysLayer::new_verif(io);
+        match self.inner.run(&mut phys).await {
+            SessionError::IoError(x) => SessionEnd::Io(x),
+            SessionError::BadFrame => SessionEnd::BadFrame,
+            SessionError::Disabled => SessionEnd::Disabled,
+            SessionError::MaxTimeouts(x) => SessionEnd::MaxTimeouts(x),
+            SessionError::Shutdown => SessionEnd::Shutdown,
+        }
+    }
+}
+
+/// Create the production client request loop and a channel feeding it
+pub fn client_session(
+    framing: Framing,
+    max_queued_requests: usize,
+    decode: DecodeLevel,
+    max_timeouts: Option<NonZeroUsize>,
+) -> (Channel, ClientSession) {
+    let (tx, rx) = tokio::sync::mpsc::channel(max_queued_requests);
+    let (writer, reader) = match framing {
+        Framing::Tcp => (FrameWriter::tcp(), FramedReader::tcp()),
+        #[cfg(feature = "serial")]
+        Framing::Rtu => (FrameWriter::rtu(), FramedReader::rtu_response()),
+    };
+    let inner = crate::client::task::ClientLoop::new(rx.into(), writer, reader, decode, max_timeouts);
+    (Channel { tx }, ClientSession { inner })
+}
+
+/// Future returned by a [`Connector`]
+pub type ConnectFuture = Pin<Box<dyn Future<Output = std::io::Result<Box<dyn Io>>> + Send>>;
+
+/// Answers the connection attempts of a TCP client task in place of the operating system
+pub trait Connector: Send {
+    /// Called once per connection attempt
+    fn connect(&mut self) -> ConnectFuture;
+}
+
+/// Create the production TCP client task with connection attempts answered by `connector`
+pub fn tcp_client(
+    connector: Box<dyn Connector>,
+    retry: Box<dyn RetryStrategy>,
+    listener: Option<Box<dyn Listener<ClientState>>>,
+    options: ClientOptions,
+) -> (Channel, ClientTask) {
+    let (tx, rx) = tokio::sync::mpsc::channel(options.max_queued_requests);
+    let mut task = crate::tcp::client::TcpChannelTask::new(
+        crate::client::HostAddr::ip(std::net::Ipv4Addr::UNSPECIFIED.into(), 0),
+        rx.into(),
+        crate::tcp::client::TcpTaskConnectionHandler::Tcp,
+        retry,
+        options,
+        listener.unwrap_or_else(|| crate::client::NullListener::create()),
+    );
+    task.set_verif_connector(connector);
+    (Channel { tx }, ClientTask::tcp(task))
+}
+
+/// Evaluate an address filter exactly as the server accept loop does
+pub fn filter_matches(filter: &crate::server::AddressFilter, addr: std::net::IpAddr) -> bool {
+    filter.matches(addr)
+}
